@@ -324,7 +324,9 @@ def stream_line(art, extents, extra_init=(), tids=None, parts=False):
                 sc = cmd.box.start_coord
                 src_delta = int(cmd.in_tensor.address_for_coordinate(sc) - cmd.in_tensor.address) - int(npu_op.src.address)
                 dst_delta = int(cmd.out_tensor.address_for_coordinate(sc) - cmd.out_tensor.address) - int(npu_op.dest.address)
-                infos.append(f"D,{st},{src_delta},{dt},{dst_delta}")
+                # the transfer is rounded up to 16 bytes; only the bytes of the box itself are tensor data
+                valid = int(cmd.in_tensor.address_for_coordinate(cmd.box.end_coord, is_top_box=True)) - int(npu_op.src.address)
+                infos.append(f"D,{st},{src_delta},{dt},{dst_delta},{max(valid, 0)}")
             continue
         assert isinstance(cmd, NpuStripe)
         op = cmd.ps.primary_op
